@@ -56,8 +56,17 @@ def make(rng, tier):
                 y = rand_tt(rng, N, rand_ranks(rng, d, 2), dt, M=M)
                 x = x + 1e-4 * y * (2.0 ** 0)
             elif kind == "zero":
-                x = x * 0
-                x = x + x
+                if (rep // 6 + d) % 3 == 0:
+                    x = x * 0
+                    x = x + x
+                elif (rep // 6 + d) % 3 == 1 and d >= 2:
+                    # exactly zero tensor stored with INFLATED ranks: one all-zero core inside a train of rank > 1
+                    cs = [c.clone() for c in (x + x).cores]
+                    k0 = rng.randrange(len(cs))
+                    cs[k0] = cs[k0] * 0
+                    x = torchtt.TT(cs)
+                else:
+                    x = (x + x) * (torchtt.TT([c * 0 for c in x.cores]))      # Hadamard product with a zero train: ranks multiply, value exactly zero
             else:
                 g = tn.Generator().manual_seed(rng.randrange(1 << 30))
                 cs = [tn.randn(c.shape, generator=g, dtype=tn.float64).to(dt) for c in (x + x).cores]
@@ -149,6 +158,13 @@ def round_case(rec, label, x, eps, rmax):
             for k in range(1, d):
                 if R[k] > max(ur[k - 1], 1):
                     return "rank %d at bond %d exceeds the exact unfolding rank %d (eps=%g)" % (R[k], k, ur[k - 1], eps)
+        if d >= 2 and eps >= 1e-10 and nrm == 0 and any(not bool(c.any()) for c in x.cores):
+            # a STRUCTURALLY zero tensor (some core is exactly zero; a tensor that vanishes only through cancellation between blocks has
+            # roundoff-sized singular values, for which no eps is "above roundoff level"): every unfolding has rank 0, the smallest
+            # representable rank is 1
+            for k in range(1, d):
+                if R[k] > 1:
+                    return "rank %d at bond %d of an exactly zero tensor (stored ranks %s) is not compressed to 1 (eps=%g)" % (R[k], k, Rb, eps)
         binding = False
         if rm is not None:
             # calls are recorded right-to-left: bond d-1 first
